@@ -418,7 +418,7 @@ def model_line(case, out):
         return abstract(case.line, out)
     if w in ('ssp', 'slp'):
         cfg, rest = case.line.split(' ; ', 1) if ' ; ' in case.line else (case.line, '')
-        scripts = ' '.join('L' * int(n) if int(n) else '-' for n in cfg.split()[1:])
+        scripts = ' '.join('L' * int(n) if int(n) else '-' for n in cfg.split()[1:] if n != 'S')
         return f'spin {scripts}' + (f' ; {rest}' if rest else '')
     return case.line
 
@@ -460,8 +460,10 @@ def gen_simple(rng, tier):
                 if rng.random() < 0.2:
                     cur = rng.randrange(nt)
                 sched.append(cur)
-        out.append(Case(f'{kind} ' + ' '.join(map(str, counts)) + ' ; ' + ' ; '.join(f't{t}' for t in sched),
-                        'd_ssp' if kind == 'ssp' else 'd_slp', (kind, 'random')))
+        # a third of the cases on a processor that has been shut down: the calls still serialise on the lock
+        sd = ' S' if rng.random() < 0.33 else ''
+        out.append(Case(f'{kind} ' + ' '.join(map(str, counts)) + sd + ' ; ' + ' ; '.join(f't{t}' for t in sched),
+                        'd_ssp' if kind == 'ssp' else 'd_slp', (kind, 'random', 'after-shutdown' if sd else 'live')))
     return out
 
 
